@@ -39,6 +39,13 @@ func (st *State) mapKeyTerm(k Value, mt *types.Map) Term {
 	if !isString(mt.Key()) {
 		return k.Tm
 	}
+	return st.strKey(k.Tm)
+}
+
+// strKey: the abstract map key of a string; key(s) == key(t) <=> s == t (content) is asserted for
+// every pair of key strings occurring on the path.
+func (st *State) strKey(ktm Term) Term {
+	k := Value{Tm: ktm}
 	key := st.uf("skey", SInt, k.Tm)
 	// key(s) == key(t) <=> s == t for the keys occurring on this path
 	for _, o := range st.strKeys {
